@@ -1499,6 +1499,43 @@ func otherFlows(repo string) {
 		{"meter/meter.go", "progressMeter", "Start"}, {"meter/meter.go", "progressMeter", "Inc"}, {"meter/meter.go", "progressMeter", "Add"}, {"meter/meter.go", "progressMeter", "Done"}})
 }
 
+func exprName(x ast.Expr) string {
+	if id, ok := x.(*ast.Ident); ok {
+		return id.Name
+	}
+	return ""
+}
+
+// pipelineStages lists, per iterator file, the stages handed to `pipe.Pipeline.Add` in order:
+// (file, [(constructor, stage name)])
+func pipelineStages(repo string) {
+	var rows []string
+	for _, rel := range []string{"git/obj_iter.go", "git/batch_obj_iter.go", "git/ref_iter.go"} {
+		f := parse(filepath.Join(repo, rel))
+		var stages []string
+		ast.Inspect(f, func(n ast.Node) bool {
+			c, ok := n.(*ast.CallExpr)
+			if !ok {
+				return true
+			}
+			sel, ok := c.Fun.(*ast.SelectorExpr)
+			if !ok || exprName(sel.X) != "pipe" || len(c.Args) == 0 {
+				return true
+			}
+			switch sel.Sel.Name {
+			case "Function", "CommandStage", "LinewiseFunction", "Command":
+				if isStrLit(c.Args[0]) {
+					stages = append(stages, fmt.Sprintf("(%s, %s)", q(sel.Sel.Name), q(strLit(c.Args[0]))))
+				}
+			}
+			return true
+		})
+		rows = append(rows, fmt.Sprintf("  (%s, [%s])", q(rel), strings.Join(stages, ", ")))
+	}
+	out.WriteString("/-- the stages of the three subprocess pipelines, in order: (file, [(constructor, name)]) -/\n")
+	out.WriteString("def pipelineStages : List (String × List (String × String)) := [\n" + strings.Join(rows, ",\n") + "]\n\n")
+}
+
 // graphFlows: the statement lists of the aggregator core of sizes/graph.go, one per function
 func graphFlows(repo string) {
 	fns := [][2]string{{"Graph", "RegisterBlob"}, {"Graph", "RegisterTree"}, {"treeRecord", "initialize"}, {"treeRecord", "maybeFinalize"},
@@ -1538,6 +1575,7 @@ func main() {
 	scanPhases(repo)
 	resolverSites(repo)
 	mainFlow(repo)
+	pipelineStages(repo)
 	graphFlows(repo)
 	otherFlows(repo)
 	funcFlow(repo, "sizes/graph.go", "", "ScanRepositoryUsingGraph", "scanFlow", "sizes.ScanRepositoryUsingGraph, EVERY statement in source order: (kind, text, branch path)")
